@@ -80,18 +80,11 @@ def classify(st, dialect, res):
     d = res["delta"]
     only_missing_src = d["missing_source"] and not d["extra_source"] and not d["missing_target"] and not d["extra_target"]
     if only_missing_src:
-        if "item:subq" in f:
-            return "F-C01-scalar-subquery-in-select-list"
-        if "tail:having" in f:
-            return "F-C01-subquery-in-having"
-        if ("where:in" in f or "where:and" in f) and ("from:comma" in f or "from:join_comma" in f or "from:comma_join" in f):
-            return "F-C01-comma-join-inside-in-subquery"
-        if "kind:update" in f and st.get("where") and ("from:comma" in f or "from:join_comma" in f or "from:comma_join" in f):
+        comma = "from:comma" in f or "from:join_comma" in f or "from:comma_join" in f
+        if ("where:in" in f or "where:and" in f) and comma:
             return "F-C01-comma-join-inside-in-subquery"
         if "from:nested_paren" in f and "rel:derived" in f:
             return "F-C01-derived-table-in-parenthesised-join"
-        if "kind:update" in f and any(x.startswith("where:") for x in f):
-            return "F-C01-update-where-subquery"
     return None
 
 
